@@ -273,6 +273,9 @@ def main():
     seeds = [c.seed] if quick else [c.seed, c.seed + 100, c.seed + 200]
     for s in seeds:
         r.stream("c14-lab", n=14 if quick else 60, seed=s, veneers=60, docs=5 if quick else 8, tier=c.tier)
+    # chains of struct members flattened into the root builder (struct_fields_as_options chains, merge_into with
+    # under_path of 1..3 segments): sibling assignment paths of length >= 4 derived from one prefix
+    r.stream("c14-lab-deep", n=6 if quick else 24, seed=c.seed + 13, deep=1, docs=5 if quick else 8, tier=c.tier)
     r.report()
 
     st = r.stats
